@@ -97,7 +97,7 @@ static void get_ftype (char const *const name,
 	int argc;
 	*ftype = 0; /* by default, file is MPS */
 	snprintf(buff,4096,"%s",name);
-	EGioNParse(buff,128,"."," ",&argc,argv);
+	EGioNParse(buff,128,".","",&argc,argv);
 	argc-=1;
 	if(argc)
 	{
